@@ -302,8 +302,19 @@ class Evaluator:
             return TupleV([self.ite(cond, x, y) for x, y in zip(a.items, b.items)])
         if isinstance(a, ListV) and isinstance(b, ListV) and len(a.items) == len(b.items):
             return ListV([self.ite(cond, x, y) for x, y in zip(a.items, b.items)])
-        if isinstance(a, ObjV) and isinstance(b, ObjV) and a.cls is b.cls and set(a.attrs) == set(b.attrs):
-            return ObjV(a.cls, {k: self.ite(cond, a.attrs[k], b.attrs[k]) for k in a.attrs}, a.tag)
+        if isinstance(a, ObjV) and isinstance(b, ObjV) and a.cls is b.cls:
+            if set(a.attrs) == set(b.attrs):
+                return ObjV(a.cls, {k: self.ite(cond, a.attrs[k], b.attrs[k]) for k in a.attrs}, a.tag)
+            # an attribute created on one arm only: tolerated when it is private derived state (a memoised value is
+            # recomputed on demand; its coherence is rule RS's business), never for state backing a settable property
+            odd = set(a.attrs) ^ set(b.attrs)
+
+            def derived(k):
+                pr = a.cls.find_property(k.lstrip("_"))
+                return k.startswith("_") and k != "_data" and not (pr is not None and pr.get("set") is not None)
+            if all(derived(k) for k in odd):
+                common = set(a.attrs) & set(b.attrs)
+                return ObjV(a.cls, {k: self.ite(cond, a.attrs[k], b.attrs[k]) for k in a.attrs if k in common}, a.tag)
         return PhiV(cond, a, b)
 
     def same(self, a, b):
@@ -341,40 +352,127 @@ class Evaluator:
             if isinstance(v, DictV):
                 n = DictV()
                 memo[id(v)] = n
+                memo["__pairs__"].append((v, n))
                 n.d = {k: self.clone(x, memo) for k, x in v.d.items()}
             elif isinstance(v, ListV):
                 n = ListV([])
                 memo[id(v)] = n
+                memo["__pairs__"].append((v, n))
                 n.items = [self.clone(x, memo) for x in v.items]
             else:
                 n = ObjV(v.cls, {}, v.tag)
                 memo[id(v)] = n
+                memo["__pairs__"].append((v, n))
                 n.attrs = {k: self.clone(x, memo) for k, x in v.attrs.items()}
             return n
         return v
 
     def fork(self, fr):
-        memo = {}
+        """A copy of the frame whose mutable values (objects, dicts, lists reachable from the environment) are cloned, so
+        that the two arms of an undecided test do not see each other's writes.  The (original, clone) pairs are kept: when
+        an arm is adopted or the arms are merged, the surviving state is written back *into the original objects*, so that
+        every alias held by a caller sees it (a setter that assigns `self._x` after an undecided guard must change the
+        caller's object, not a copy)."""
+        memo = {"__pairs__": []}
         f2 = Frame(self, fr.fi, fr.mi, {k: self.clone(v, memo) for k, v in fr.env.items()}, fr.depth, fr.closure)
+        f2.pairs = memo["__pairs__"]
         f2.pending = list(fr.pending)
         f2.facts = list(fr.facts)
         f2.events = fr.events
         return f2
 
-    def merge_into(self, fr, cond, f1, f2):
-        env = {}
-        for k in set(f1.env) | set(f2.env):
-            if k in f1.env and k in f2.env:
-                env[k] = self.ite(cond, f1.env[k], f2.env[k])
+    def _unclone(self, v, rev, seen):
+        """Replace references to clones by the originals they stand for (in place inside values created in the arm)."""
+        if id(v) in rev:
+            return rev[id(v)]
+        if isinstance(v, (DictV, ListV, ObjV, TupleV)) and id(v) not in seen:
+            seen.add(id(v))
+            if isinstance(v, DictV):
+                for k in list(v.d):
+                    v.d[k] = self._unclone(v.d[k], rev, seen)
+            elif isinstance(v, (ListV, TupleV)):
+                v.items = [self._unclone(x, rev, seen) for x in v.items]
             else:
-                env[k] = f1.env.get(k) or f2.env.get(k)   # defined on one arm only
+                for k in list(v.attrs):
+                    v.attrs[k] = self._unclone(v.attrs[k], rev, seen)
+        return v
+
+    @staticmethod
+    def _content(v):
+        return v.d if isinstance(v, DictV) else v.attrs if isinstance(v, ObjV) else None
+
+    def _adopt(self, fr, f, fact):
+        pairs = getattr(f, "pairs", [])
+        rev = {id(c): o for o, c in pairs}
+        seen = set()
+        for o, c in pairs:
+            if isinstance(o, ListV):
+                o.items = [self._unclone(x, rev, seen) for x in c.items]
+            else:
+                new = {k: self._unclone(x, rev, seen) for k, x in self._content(c).items()}
+                tgt = self._content(o)
+                tgt.clear()
+                tgt.update(new)
+        fr.env = {k: self._unclone(v, rev, seen) for k, v in f.env.items()}
+        fr.pending = [(c, self._unclone(v, rev, seen)) for c, v in f.pending]
+        fr.facts = f.facts
+
+    def merge_into(self, fr, cond, f1, f2):
+        p1, p2 = getattr(f1, "pairs", []), getattr(f2, "pairs", [])
+        rev1 = {id(c): o for o, c in p1}
+        rev2 = {id(c): o for o, c in p2}
+        s1, s2 = set(), set()
+        unmerged = {}
+        if len(p1) == len(p2) and all(a[0] is b[0] for a, b in zip(p1, p2)):
+            for (o, c1), (_, c2) in zip(p1, p2):
+                if isinstance(o, ListV):
+                    i1 = [self._unclone(x, rev1, s1) for x in c1.items]
+                    i2 = [self._unclone(x, rev2, s2) for x in c2.items]
+                    if len(i1) == len(i2):
+                        o.items = [self.ite(cond, x, y) for x, y in zip(i1, i2)]
+                    else:
+                        unmerged[id(o)] = PhiV(cond, ListV(i1), ListV(i2))
+                    continue
+                a1 = {k: self._unclone(x, rev1, s1) for k, x in self._content(c1).items()}
+                a2 = {k: self._unclone(x, rev2, s2) for k, x in self._content(c2).items()}
+                merged = {}
+                for k in list(a1) + [k for k in a2 if k not in a1]:
+                    if k in a1 and k in a2:
+                        merged[k] = self.ite(cond, a1[k], a2[k])
+                    elif isinstance(o, ObjV) and self._derived_attr(o.cls, k):
+                        continue       # a memo created on one arm only is recomputed on demand (coherence: rule RS)
+                    else:
+                        merged[k] = a1[k] if k in a1 else a2[k]
+                tgt = self._content(o)
+                tgt.clear()
+                tgt.update(merged)
+        else:
+            rev1, rev2 = {}, {}
+        env = {}
+        for k in list(f1.env) + [k for k in f2.env if k not in f1.env]:
+            if k in f1.env and k in f2.env:
+                v1, v2 = self._unclone(f1.env[k], rev1, s1), self._unclone(f2.env[k], rev2, s2)
+                if v1 is v2 and id(v1) in unmerged:
+                    env[k] = unmerged[id(v1)]
+                else:
+                    env[k] = self.ite(cond, v1, v2)
+            elif k in f1.env:
+                env[k] = self._unclone(f1.env[k], rev1, s1)   # defined on one arm only
+            else:
+                env[k] = self._unclone(f2.env[k], rev2, s2)
         fr.env = env
         # predicated returns collected inside the arms
         base = len(fr.pending)
         for c, v in f1.pending[base:]:
-            fr.pending.append((sp.And(cond, c), v))
+            fr.pending.append((sp.And(cond, c), self._unclone(v, rev1, s1)))
         for c, v in f2.pending[base:]:
-            fr.pending.append((sp.And(sp.Not(cond), c), v))
+            fr.pending.append((sp.And(sp.Not(cond), c), self._unclone(v, rev2, s2)))
+        return rev1, rev2
+
+    @staticmethod
+    def _derived_attr(cls, k):
+        pr = cls.find_property(k.lstrip("_"))
+        return k.startswith("_") and k != "_data" and not (pr is not None and pr.get("set") is not None)
 
     # -------------------------------------------------------------- statements
     def exec_block(self, stmts, fr):
@@ -514,8 +612,8 @@ class Evaluator:
             return o1
         if k1 == "return" and k2 == "return":
             base = len(fr.pending)
-            self.merge_into(fr, cond, f1, f2)
-            return Outcome("return", self.ite(cond, o1.value, o2.value))
+            rev1, rev2 = self.merge_into(fr, cond, f1, f2)
+            return Outcome("return", self.ite(cond, self._unclone(o1.value, rev1, set()), self._unclone(o2.value, rev2, set())))
         if k1 == "return":
             self._adopt(fr, f2, sp.Not(cond))
             fr.pending.append((cond, o1.value))
@@ -531,11 +629,6 @@ class Evaluator:
             return self.exec_block(stmts, f)
         except Raised as r:
             return Outcome("raise", exc=r.exc_name, where=r.msg)
-
-    def _adopt(self, fr, f, fact):
-        fr.env = f.env
-        fr.pending = f.pending
-        fr.facts = f.facts
 
     def exec_for(self, s, fr):
         it = self.eval(s.iter, fr)
@@ -655,6 +748,8 @@ class Evaluator:
             return    # func.__name__ = ... bookkeeping
         if isinstance(obj, Num) and name == "imaginary":
             return
+        if isinstance(obj, Num) and obj.kind == "time" and name in ("precision", "format"):
+            return    # display attributes of a Time: no effect on the instant it denotes
         if isinstance(obj, BoundBuiltin) and obj.name == "flags" and name == "writeable":
             return    # write-protection flag: no effect on values
         self.unsupported(f"attribute store .{name} on {obj!r}", node, fr)
@@ -993,6 +1088,10 @@ class Evaluator:
                 return Num(r, kind="bool", shape=shape, axes=a.axes if a.shape is not None else b.axes)
             return CondV(r)
         if isinstance(op, (ast.Eq, ast.NotEq)):
+            for u_, v_ in ((a, b), (b, a)):
+                if isinstance(u_, OpaqueV) and u_.what in ("timeformat", "timescale") and isinstance(v_, StrV):
+                    c_ = sp.Symbol(f"{u_.what}_is_{v_.s}")
+                    return CondV(c_ if isinstance(op, ast.Eq) else sp.Not(c_))
             eq = self.equal_vals(a, b)
             if eq is None:
                 self.unsupported(f"== between {a!r} and {b!r}", node, fr)
@@ -1108,6 +1207,10 @@ class Evaluator:
         if isinstance(obj, ObjV):
             if name in obj.attrs:
                 return obj.attrs[name]
+            if name == "__dict__":
+                d = DictV()
+                d.d = obj.attrs          # live view: pop / item stores act on the instance
+                return d
             return self.class_attr(obj.cls, name, obj, fr, node)
         if isinstance(obj, ClassV):
             if name == "__name__":
@@ -1160,6 +1263,11 @@ class Evaluator:
             return ClassV(inst.cls)
         if name == "__name__":
             return StrV(ci.name)
+        if name.startswith("__") and name.endswith("__"):
+            # object-protocol attributes the model does not represent: a gap of the analyser, not an AttributeError of the code
+            self.unsupported(f"object-protocol attribute {name} of {ci.name}", node, fr)
+        if ci.ext_base_names() and not ci.is_subclass_of("Signal") and not ci.is_subclass_of("BaseReader"):
+            self.unsupported(f"attribute {name} of {ci.name} may be inherited from an external base class", node, fr)
         raise Raised("AttributeError", node, f"{ci.name} has no attribute {name}")
 
     def class_const(self, owner, name, valnode):
